@@ -79,7 +79,8 @@ CFG = {
         dict(test="^TestC14Pending$", checks=(200, 20000)),
         dict(test="^TestC14ShortMemory$", checks=(1, 1)),
         dict(test="^TestC14Exerciser$", checks=(6, 100)),
-        dict(test="^TestC14Blocks$", checks=(150, 6000))]),
+        dict(test="^TestC14Blocks$", checks=(150, 6000)),
+        dict(test="^TestC14Run$", checks=(1500, 60000))]),
     "C15": dict(pkg="core", test="^TestC15$", shards=(8, 16), checks=(20000, 400000)),
     "C16": dict(pkg="core", test="^TestC16$", shards=(1, 1), checks=(1, 1)),
     "C17": dict(pkg="zexchk", test="^TestC17$", shards=(1, 1), checks=(1, 1)),
